@@ -3,6 +3,7 @@
 
 mod iterworld;
 mod kernel;
+mod ledger;
 mod prng;
 mod registry;
 mod runner;
@@ -38,7 +39,8 @@ fn main() {
             let out = PathBuf::from(&args[8]);
             let careful = args.iter().any(|a| a == "--careful");
             let trace = args.iter().any(|a| a == "--trace");
-            with_world!(world, W => runner::worker::<W>(prop, tier, seed, from, to, &out, careful, trace))
+            let sweep = args.iter().any(|a| a == "--sweep");
+            with_world!(world, W => runner::worker::<W>(prop, tier, seed, from, to, &out, careful, trace, sweep))
         }
         Some("replay") => {
             let path = args.get(2).expect("usage: ksim replay <file>");
